@@ -33,10 +33,10 @@ IsLayoutLeaf(n) == n.leaf /\ n.type = "error_leaf" /\ n.tt \in LayoutTypes
 PosLT(a, b) == a[1] < b[1] \/ (a[1] = b[1] /\ a[2] < b[2])
 
 (***************************************************************************)
-(* TreeVerdicts(inp, nodes, posq, groups): for every group in `groups` the *)
+(* TreeVerdicts(inp, nodes, posq, groups, aux): for every group in `groups` *)
 (* first failing <<clause, node index>> or <<"ok", 0>>.                    *)
 (***************************************************************************)
-TreeVerdicts(inp, nodes, posq, groups) ==
+TreeVerdicts(inp, nodes, posq, groups, aux) ==
   LET N == Len(nodes)
       ptab == PosTable(inp)
       cntS == ScanSeq(LAMBDA c, i : c + (IF nodes[i].leaf THEN 1 ELSE 0), 0, N)
@@ -163,11 +163,27 @@ TreeVerdicts(inp, nodes, posq, groups) ==
                   IF ~q.inc /\ PosLT(pos, ExpStart(r)) THEN 0 ELSE leafIdx[r]
       badq == {j \in 1..Len(posq) : posq[j].got # ExpLookup(posq[j])}
 
+      (* ---------------- C07 (strict versus recovering parser; aux = what the strict run did) ---------------- *)
+      errIdx == {i \in 1..N : nodes[i].type \in {"error_node", "error_leaf"}}
+      errCands == {Rank(i) : i \in {j \in errIdx : nodes[j].leaf}}
+                  \cup {Rank(LastLeaf(i)) + 1 : i \in {j \in errIdx : ~nodes[j].leaf /\ HasLeaves(j)}}
+      firstErr == leafIdx[Min({r \in errCands : r <= L})]
+      C07Tree ==
+        IF aux.sraised # (errIdx # {}) THEN "StrictRaisesIffRecoveredTreeHasError"
+        ELSE IF ~aux.sraised /\ aux.sdump # aux.rdump THEN "TreesIdenticalWhenNoError"
+        ELSE IF aux.sraised /\ {r \in errCands : r <= L} = {} THEN "FirstErrorExists"
+        \* a DEDENT that triggers the error is a virtual token the tree omits (block convention): the error
+        \* then sits at the leaf that follows the error node, at the same position
+        ELSE IF aux.sraised /\ aux.stt # "DEDENT" /\ aux.sval # nodes[firstErr].val THEN "StrictErrorLeafIsFirstError:value"
+        ELSE IF aux.sraised /\ aux.ss # nodes[firstErr].s THEN "StrictErrorLeafIsFirstError:position"
+        ELSE "ok"
+
       NodeClause(g, i) == CASE g = "C01" -> C01Node(i)
                             [] g = "C02" -> C02Node(i)
                             [] g = "C03" -> C03Node(i)
                             [] g = "C09" -> C09Node(i)
                             [] g = "C11" -> C11Node(i)
+                            [] g = "C07" -> IF i = 1 THEN C07Tree ELSE "ok"
                             [] OTHER -> "ok"
       Verdict(g) ==
         LET bad == {i \in 1..N : NodeClause(g, i) # "ok"} IN
